@@ -4,14 +4,24 @@ package rogger
 // to its writer exactly once before FlushLogger returns, in per-goroutine order, each as one write.
 
 import (
+	"sync/atomic"
+	"time"
+
 	"github.com/TarsCloud/TarsGo/tars/zzverif/vapi"
 )
 
 type c20Writer struct {
-	got [][]byte
+	got   [][]byte
+	calls int32
 }
 
 func (w *c20Writer) Write(v []byte) {
+	// a real writer does I/O: a scheduling point between taking the entry from the queue and
+	// having written it (an atomic operation in the engine, a short sleep natively)
+	atomic.AddInt32(&w.calls, 1)
+	if !vapi.Engine() {
+		time.Sleep(2 * time.Millisecond)
+	}
 	c := make([]byte, len(v))
 	copy(c, v)
 	w.got = append(w.got, c)
@@ -40,10 +50,21 @@ func c20Flush(maxG, maxE int) {
 		<-done
 	}
 	// every WriteLog above has returned: now flush
+	if !vapi.Engine() {
+		// native replay: let the background writer pick up the first entry, so that the flush
+		// arrives while it is writing (the window the engine explores by scheduling)
+		time.Sleep(500 * time.Microsecond)
+	}
+	t0, n0 := time.Now(), vapi.NowNs()
 	FlushLogger()
+	waited := time.Since(t0)
+	if vapi.Engine() {
+		waited = time.Duration(vapi.NowNs() - n0)
+	}
 	flushed := asyncDone.Err() != nil
 	if !flushed {
-		// FlushLogger gave up after its timeout: nothing is promised
+		// FlushLogger may give up, but only after its timeout: then nothing is promised
+		vapi.Check(waited >= waitFlushTimeout, "FlushLogger returns only when the background writer is done or its timeout has passed")
 		vapi.Reach("c20-flush-timeout")
 		return
 	}
